@@ -301,6 +301,11 @@ func c19Run(c c19Case) (string, string) {
 		other = "0"
 	}
 	w.h.HandleOutgoing(other, func(msg simplefixgo.SendingMessage) bool { log = append(log, "other-type"); return true })
+	if lc := strings.ToLower(c.MsgType); lc != c.MsgType {
+		// message types are case-sensitive ('V' MarketDataRequest, 'v' SecurityTypeRequest)
+		w.h.HandleOutgoing(lc, func(msg simplefixgo.SendingMessage) bool { log = append(log, "other-case-type"); return true })
+		w.h.HandleOutgoing(" "+c.MsgType, func(msg simplefixgo.SendingMessage) bool { log = append(log, "padded-type"); return true })
+	}
 	w.take()
 	removed := ""
 	if c.Remove > 0 && c.Remove <= len(c.Order) {
